@@ -27,6 +27,7 @@ type Prog struct {
 	HeapKeyType   map[string]types.Type
 	StoredGlobals map[*ssa.Global][]*ssa.Function
 	TrackedSigs   map[string]trackedSig
+	Notes         []string
 }
 
 func loadProgram(root, tags string) (*Prog, error) {
